@@ -50,7 +50,7 @@ CHECKS["C09"] = dict(
     category="model_checking",
     text=_API + "C09: programs with gaps (1 sample .. several blocks .. beyond the 32 KiB fill buffer) and overlaps (partial, total, odd/even sub-byte) for all types, "
          "sequences of several gaps/overlaps, windows across the seams: fill runs must be NaN/0, overlapped positions must carry the first-written data, "
-         "length = last+1-first. JlsApiGen.tla explores all short append/skip/overlap histories of the contract.",
+         "length = last+1-first. JlsApiGen.tla explores all short append/skip/overlap histories of the contract. Stored level-1 summary entries of structured streams with gaps are lifted from the file: gap samples of float signals are absent, of integer signals zeros. Targeted sub-byte overlaps (lengths that are not whole bytes, around block boundaries) are always included.",
     design_ref="DESIGN.md section 6 C09, section 12",
     note="Trusted: as C01. The summary clause (gap samples absent from float summaries) is judged by C02's check.",
     technique="TLC trace validation of API executions against a TLA+ contract; TLC model checking of the contract's gap/overlap arithmetic",
@@ -117,7 +117,7 @@ CHECKS["C02"] = dict(
          "to integers (min/max, llround(mean*n), llround(std^2*100)) and TLC judges it in exact 32-bit-safe integer arithmetic (StatsContract.tla via "
          "JlsApi!RdStatsVerdict): single windows - min/max exact, n*mean within the stored precision, (d-1)/d*var <= std^2 <= var; multi-window - every entry "
          "within the extremes of its window widened by one increment, sum of means = exact range mean. StatsMC.tla model-checks the closed forms "
-         "against their definitions and that exact statistics are accepted while those of a shifted window are rejected.",
+         "against their definitions and that exact statistics are accepted while those of a shifted window are rejected. Every stored FSR summary entry whose span is at most 4096 samples is also lifted from the bytes of each file and judged against the closed-form truth (exact min / max / mean and population variance at level 1; upper levels where nothing is missing).",
     design_ref="DESIGN.md section 6 C02, section 7, section 12",
     note="Trusted: as C01. Not decided: floating-point rounding on arbitrary values (no closed form); 64-bit types may refuse requests (level-0 statistics unsupported); "
          "24-bit types are not summarisable. The std clause is evaluated where n*(M-1) <= 46000.",
@@ -133,7 +133,7 @@ CHECKS["C05"] = dict(
          "heads = first DATA/INDEX chunk per level; every INDEX immediately followed by its SUMMARY with the same timestamp; every FSR / annotation / UTC "
          "index entry leading to the chunk of the expected kind, signal, level and timestamp with the level's stride) and JlsFormat!Decodes (definitions as "
          "normalised by SigDef.tla, stored samples by candidate runs, annotations, UTC, user data = the content submitted through the API). "
-         "JlsLinks.tla model-checks the writer's cached-tail list maintenance and head-table updates against the same Links/Heads predicates.",
+         "JlsLinks.tla model-checks the writer's cached-tail list maintenance and head-table updates against the same Links/Heads predicates. Tier B: JlsWriter.tla (FSR writer: which DATA / INDEX / SUMMARY chunk is emitted when; plus the reader's index descent) and JlsTsWriter.tla (annotation / UTC tracks) are model-checked (tiling, index completeness, nothing pending after close, every sample found by the descent) and every produced file's chunk sequence is compared with them (JlsWriterTrace.tla; deviation = MODEL-DRIFT).",
     design_ref="DESIGN.md section 6 C05, section 12",
     note="Trusted: TLC, tools/lifter.py, harness/crc_ref.c. SUMMARY values are judged by C02/C15 (here: structure). Repaired files are judged with the same "
          "predicates by the C03/C19 check.",
@@ -146,7 +146,7 @@ CHECKS["C17"] = dict(
          "statistics, payloads > 1 MiB) are copied with the real jls_copy. The destination is decoded from its bytes and must be a well-formed, properly "
          "closed file that decodes to the submitted content (JlsFormat!WellFormed / Decodes), and it is read through the API with the same request list "
          "as the source - definitions, lengths, windows, statistics, annotations, UTC, user data - all judged by TLC against the same abstract content "
-         "(JlsApi contract), which is what 'reads back the same as from the original' means when both sides are held to one reference.",
+         "(JlsApi contract), which is what 'reads back the same as from the original' means when both sides are held to one reference. User data sized at the edge of the copy buffer (2^20-4 .. 2^20+1, 2^21-2, 2^21) are included.",
     design_ref="DESIGN.md section 6 C17, section 12",
     note="Trusted: as C01/C05. Known finding C17-K1 (blocks that exist only as summaries become gaps in the copy) is probed and reported. "
          "Unclosed originals are exercised by the crash-image corpus of the C03 check.",
@@ -189,7 +189,7 @@ CHECKS["C20"] = dict(
          "that the empty accumulator is the identity. Every sequence of that state space, seeded longer ones (constant, alternating, random, with offset) "
          "and structured 10^4-sample streams are then run through the same routes on the real jls_statistics_* - including operand aliasing (result "
          "overwrites either operand) and the f32/f64 compute variants - and TLC judges the integer projections (count, min, max, llround(mean*k), "
-         "llround(s+mean^2*k), residuals <= 1e-6, var >= 0, mean within [min,max]) against the exact triple (StatsTrace.tla).",
+         "llround(s+mean^2*k), residuals <= 1e-6, var >= 0, mean within [min,max]) against the exact triple (StatsTrace.tla). Sequences around offsets of 3e7 .. 1e9 are judged through shift invariance with a direct projection of s (catches formulas that lose the deviations in the magnitude of the samples).",
     design_ref="DESIGN.md section 6 C20, section 7, section 12",
     note="Trusted: TLC. Integer-valued inputs only: precision loss over many decades of magnitude / large offsets is numeric analysis and is not decided.",
     technique="TLC model checking of an exact-rational transcription + replay of its state space into the C code + TLC validation of integer projections",
@@ -206,7 +206,7 @@ CHECKS["C03"] = dict(
          "exceeds or differs from the submitted prefix; annotations/UTC/user data are in-order selections of unaltered submitted items; for a stop between "
          "two complete writes with all definitions on disk the open succeeds, every call works and no more than the block in flight is lost (vs. the "
          "samples in complete DATA chunks of the image). JlsLinks.tla model-checks, per backend write, that after ANY prefix of writes every pointer on disk "
-         "is 0 or leads to a complete chunk.",
+         "is 0 or leads to a complete chunk. For signals without omitted blocks the statistics the reader reports on each image (single-window and entry-aligned requests) are compared with the samples it returned.",
     design_ref="DESIGN.md section 6 C03, section 12",
     note="Trusted: as C01 plus the crash model (file = byte prefix of the write stream). Known findings C03-K1 (repair skips blocks that exist only as "
          "summaries) and C19-K1 (torn in-place header stays corrupt) are classified structurally and reported.",
@@ -231,7 +231,7 @@ CHECKS["C04"] = dict(
          "lengths, all samples as candidate runs, annotations, UTC, user data); TLC judges each FaultObs event with JlsCorrupt.tla against the content written: "
          "every observation is an error, or exactly the original, or - only if the open repaired the file - a genuine prefix (C03 semantics); never altered "
          "content as valid, never a crash or hang. CrcHD.tla decides exhaustively, by GF(2)-linearity on the single-bit syndromes derived from the polynomial, "
-         "that every alteration of <= 3 bits within a protected region of 28+4 / 132+4 (thorough 300+4) bytes changes the CRC.",
+         "that every alteration of <= 3 bits within a protected region of 28+4 / 132+4 (thorough 300+4) bytes changes the CRC. Sampled faults inside payloads larger than the reader's initial 1 MiB chunk buffer (big user data, big FSR block) are included; sample-id -> time conversions are asked twice on every altered file and must agree with the UTC entries written.",
     design_ref="DESIGN.md section 6 C04, section 12",
     note="Trusted: TLC, the driver's projections, the crash/fault child-process harness. Bursts <= 32 bits rely on the standard CRC burst theorem (sampled, not enumerated). "
          "Statistics of altered files are not dumped.",
@@ -265,7 +265,7 @@ CHECKS["C07"] = dict(
          "deadlock check, and termination under fairness (strong fairness per thread, weak fairness of the clock), so every retry loop ends. Every edge of the "
          "state graph of small programs is executed on the real code under virtual time (all timeout paths reachable); those runs plus random programs with "
          "flushes behind big messages under seeded schedules are judged by TwrContractTrace.tla (flush/close clauses; Deadlock = nothing enabled, no timer, "
-         "threads unfinished; Livelock = step budget exhausted under a weakly fair schedule) and compared with Twr.tla by TwrTrace.tla.",
+         "threads unfinished; Livelock = step budget exhausted under a weakly fair schedule) and compared with Twr.tla by TwrTrace.tla. Programs include definitions that are refused (the process lock must be released on the error path).",
     design_ref="DESIGN.md section 6 C07, section 12",
     note="Trusted: as C06. 'Synced' is observed as the call of jls_wr_flush by the writer thread, not as fsync reaching the device. Fairness: the shim runs an "
          "enabled thread after at most 20000 decisions; the model assumes strong fairness for lock acquisition.",
